@@ -4,10 +4,104 @@ COMMON_NOTE = ("Trusted: Lean 4.33 kernel; axioms reported per theorem by #print
                "the hand-written model corresponds to the Rust code only as far as the differential families exercise it (sampled, not proved); Rust harness, Lean driver and tools/check.py; "
                "f64/f32 rounding, Rc/Cell/RefCell semantics, the allocator, real stack depth and post-panic states are modelled or out of scope, not verified.")
 
+TIE = (" Tie to the code, on every run: the harness (real crate, rebuilt from /repo) and the compiled Lean model interpret the same generated command files; "
+       "outputs are compared exactly on integer/dyadic data (and under a tolerance on doubles), and the implementation is also compared with an executable specification written from the property text.")
+
 CLAIMS = {
+    "C01": {
+        "text": "Proved (Lean, all well-founded graphs: any fan-out, diamonds, self-products, depth; any lawful closures): a completed pass from a clean state enters exactly the nodes reachable from the result through tracked operands, each exactly once, each only after all its consumers delivered, touches no other gradient cell and ends clean - so no path is dropped and none is followed twice (C01_every_path_once_partial, from backward_counts + backward_frame). PARTIAL: that the merged delta equals the seed-weighted sum of partial derivatives is not yet a theorem; it is decided on every run by comparing every gradient of random DAG programs (incl. chains with 2^45..2^60 paths, broadcasting + sharing, data-dependent control flow) with an independent forward-mode (dual number) evaluation over the specification operations." + TIE,
+        "note": COMMON_NOTE + " User closures are assumed lawful; seeds are plain arrays.",
+        "technique": "Lean 4 proof of the engine's counting/ordering invariant (induction over fuel with a pend-generalised invariant) + differential correspondence with a dual-number forward-mode oracle",
+    },
+    "C02": {
+        "text": "Proved over the reals with Mathlib's HasDerivAt: the tangent rule of every scalar function of the reference differentiation (exp, ln, power with any real exponent, reciprocal, quotient, product, sigmoid, relu) is its mathematical derivative at every in-domain point (C02_exp ... C02_relu). PARTIAL: the per-operation structure (which element receives which contribution under broadcasting, overlapping conv windows, several summed dimensions, all transpose combinations, additive term) is decided on every run: gradients of single-operation programs with non-uniform seeds are compared with the forward-mode reference built from the specification operations, exhaustively over small shape grids and randomly beyond." + TIE,
+        "note": COMMON_NOTE + " HasDerivAt is about the reals; the code evaluates libm in floats.",
+        "technique": "Lean 4 + Mathlib proof of the scalar derivative table; differential check of per-operation Jacobian-transpose structure against dual numbers",
+    },
+    "C03": {
+        "text": "Proved: whatever flatten_to returns has exactly the requested dimensions (C03_flatten_dims); in the delivery loop every contribution - the first and every later one - is passed through flatten_to with the operand's own dimensions before it is stored or added (C03_every_contribution_reduced, C03_first_contribution). PARTIAL: that the reduced delta is the sum over the broadcast positions (sumBroadcast) is decided on every run: for every broadcast-compatible shape pair (exhaustive rank<=3/4) with 1-3 uses of the broadcast operand, gradient dimensions and values are compared with the forward-mode reference." + TIE,
+        "note": COMMON_NOTE,
+        "technique": "Lean 4 proof about the delivery loop and flatten_to's result shape; differential check of values",
+    },
+    "C04": {
+        "text": "Proved for all dimension lists (any rank/size): element_wise_dimensions returns the pairwise maximum of the right-aligned dimensions exactly when they are pairwise equal or 1 and refuses every other pair (C04_dims); add, sub, mul, div, axpy on incompatible shapes panic and never return values (C04_refuse, C04_refuse_ops). PARTIAL: the element formula (element at idx = f(a[proj idx], b[proj idx])) is decided on every run against specEwise: exhaustively for every ordered shape pair of rank<=3 size<=2 (quick) / rank<=4 size<=3 (thorough, 14,400 pairs) x 5 ops, randomly to rank 5." + TIE,
+        "note": COMMON_NOTE,
+        "technique": "Lean 4 proof of shape/refusal; differential check of the element formula against the index-function specification",
+    },
+    "C05": {
+        "text": "Proved: one entry of the per-batch product is the additive-term value plus the sum over the inner index of the transposed-indexed products, for all sizes and both flags (C05_entry). PARTIAL: batching/broadcast of leading dimensions, shape derivation, rank-1 conventions and refusals are decided on every run against specMatmul over the grid (leading patterns up to 2 dims each side) x (m,k,n) x 4 transposes x 5 additive-term forms, rank-1 forms and inner mismatches." + TIE,
+        "note": COMMON_NOTE,
+        "technique": "Lean 4 proof of the inner loop; differential check against the sum-over-k specification",
+    },
+    "C06": {
+        "text": "Proved: conv refuses fewer than three dimensions, a filter larger than the image and a zero stride (C06_refuse_rank, C06_refuse_size); the specification's output dimensions are [batch..,count,(rows-fr)/sr+1,(cols-fc)/sc+1] (C06_spec_dims). PARTIAL: the sliding-window value formula for every batch size, overlapping / uneven strides is decided on every run against specConv (direct triple sum) over a grid of image/filter/stride/batch configurations." + TIE,
+        "note": COMMON_NOTE,
+        "technique": "Lean 4 proof of refusals; differential check against the direct sliding-window specification",
+    },
+    "C07": {
+        "text": "Proved for all shapes/values: reshape keeps the row-major values under the new dimensions iff the element count matches and every dimension is >= 1, and refuses otherwise (C07_reshape, C07_reshape_refuses); negation, scaling, powf, ln, exp, reciprocal, relu, sigmoid keep the dimensions and map every value (C07_maps, C07_neg_ring); sum(0) is the identity, sum_all the total. PARTIAL: sum(k) for k>=1 (collapsed trailing block sums, trailing unit dimension) and softmax's row normalisation are decided on every run against specSum / specSoftmax for every shape of rank<=3/4 and every k." + TIE,
+        "note": COMMON_NOTE + " In floats a softmax row sums to one only up to rounding.",
+        "technique": "Lean 4 proofs (definitional + constructor theorem); differential check of sum(k)/softmax against the specification",
+    },
+    "C08": {
+        "text": "Proved: allocation only appends a buffer (C08_alloc), a reshaped view adds none (C08_view), a backward pass with its accumulation touches no buffer and no handle (C08_backward), gradient read/clear/set touch no buffer (C08_setGrad), gather/drain/update of the optimizer only allocate (C08_gather, C08_drain, C08_update_fresh), and a handle denotes the same dims and values in any state that extends the buffers (C08_handle_stable). PARTIAL: the lift to every command of the language (one theorem over `step`) is not yet stated. On every run the harness keeps a bitwise copy of every live handle taken when it was bound and compares all of them after every command of random histories (ops, passes, gradient fetch/clear/set, optimizer and model updates, drops) - an oracle on the implementation that needs no model." + TIE,
+        "note": COMMON_NOTE + " Safe Rust's aliasing rules make 'append-only buffers' faithful; gradient-cell buffer sharing is observed by the harness, not modelled.",
+        "technique": "Lean 4 frame lemmas over the heap model + implementation-side bitwise shadow-copy oracle over random histories",
+    },
+    "C09": {
+        "text": "Proved: the iff rule for every element-wise and unary operation and for matmul including its additive term (result tracked iff some operand tracked; an untracked result stores no operand) (C09_iff_ewise, C09_iff_unary, C09_iff_matmul); a completed pass changes gradient cells only at nodes reachable from the root through operands that were tracked when used - nothing below an untracked stored operand (C09_only); the pass leaves the name environment and every recorded node, hence every flag, unchanged (C09_flags_kept); a flag setter rebinds one name only (C09_clone_local). Every flag assignment (6 ways of setting) of every operation, untracked intermediates, start/stop return values before and after passes, stored-operand flags (probe hook) and plainness of fetched gradients are compared on every run." + TIE,
+        "note": COMMON_NOTE + " Gradients are plain arrays by construction in the by-value model; the tie checks it on the implementation.",
+        "technique": "Lean 4 proofs (allocation lemmas, counting theorem, frame lemma) + differential flag/gradient-presence checks",
+    },
+    "C10": {
+        "text": "Proved for every well-founded graph and every root/seed: a completed pass from a clean state (all counters zero, no pending delta) ends clean (C10_clean), hence any sequence of passes - same result again, shared sub-graphs, interior node then containing result - keeps the state clean and each pass starts from the same counter/pending state (C10_clean_history); the gradient cell is only changed by adding the entering delta (C10_store_adds). PARTIAL: additivity of the *values* across passes follows from C01's value half, which is decided on every run: after every pass of random histories (with clears/sets/drops in between) every gradient is compared with the sum of per-pass forward-mode references since the last clear, and counters/pending flags of every live node are probed." + TIE,
+        "note": COMMON_NOTE,
+        "technique": "Lean 4 proof of the clean-to-clean invariant (counting theorem) + induction over pass sequences; differential accumulation oracle",
+    },
+    "C11": {
+        "text": "Proved for every well-founded graph (any fan-out, diamonds, self-product chains) with lawful closures: in a completed pass the log of node entries has no duplicates and is exactly the set of nodes reachable through tracked operands (C11_once), every node is entered after all its consumers in the graph (C11_after), and the number of entries is the number of distinct reachable nodes whatever the number of paths (C11_linear_work). The 'complete adjoint' half is C01's value half. On every run the invocation log of user closures given to Array::op (label, received delta) is compared, incl. exhaustive small DAGs and chains with 2^45..2^60 paths." + TIE,
+        "note": COMMON_NOTE + " User closures are assumed lawful (Some exactly for tracked operands).",
+        "technique": "Lean 4 proof of exactly-once / consumers-first by a counting invariant generalised over pending deliveries",
+    },
+    "C12": {
+        "text": "Proved: a clone is the same handle under another name (C12_clone_is_handle); every operation and the backward pass are functions of the heap and the operand handles only - under any other name environment (operands replaced by clones, handles dropped, variables re-bound, pass started from a clone) they return the same result and make the same heap change (C12_op_ignores_names, C12_unary_ignores_names, C12_pass_ignores_names); gradients are read through the node id that clones share (C12_shared_grad); drop changes nothing but the environment (C12_drop). On every run each random program is executed next to an edited twin and all values/gradients must coincide (metamorphic, decided on the implementation's own outputs)." + TIE,
+        "note": COMMON_NOTE + " That Rust's Clone shares all five Rc fields is exactly what the metamorphic correspondence tests.",
+        "technique": "Lean 4 proofs of name-environment independence + metamorphic differential check",
+    },
+    "C13": {
+        "text": "Proved: stepping the concatenated buffers equals concatenating the per-parameter steps when each gradient has its parameter's length (C13_step_blocks); a parameter without a gradient is marked frozen and keeps its handle, a parameter with a gradient contributes values and gradient at the same position and its gradient is taken (C13_frozen_first, C13_unfrozen_first, C13_drain_frozen). PARTIAL: the composed statement (update = per-parameter map for arbitrary lists) is not yet one theorem; it is decided on every run against the per-parameter formula for every frozen subset of 1-4 parameters, random lists of 1-6, repeated updates and gradients produced by real passes." + TIE,
+        "note": COMMON_NOTE,
+        "technique": "Lean 4 list lemmas about the positional buffers; differential check against the per-parameter SGD formula",
+    },
+    "C14": {
+        "text": "Proved: the backward pass of an iteration ends with clean counters/pending deltas whatever ran before (C14_no_leak); a parameter created by update is a fresh leaf with a new buffer, no stored operands and no gradient (C14_fresh_parameter). PARTIAL: the per-iteration value claim (loss of current parameters; parameters move by -lr * exact gradient) is decided on every run: after every iteration of random dense/conv models (activations, both costs, batches incl. unbatched, 1-5 iterations) the loss is compared with the cost formula on the specification forward, and the updated parameters with old - lr * forward-mode gradient." + TIE,
+        "note": COMMON_NOTE,
+        "technique": "Lean 4 composition lemmas; differential check per iteration against spec forward + dual-number gradient + SGD formula",
+    },
+    "C15": {
+        "text": "Proved (by unfolding the model): a dense layer is matmul(x, W^T, bias) then activation (C15_dense), a conv layer is conv + broadcast bias then activation (C15_conv), mse is (target-output)^2 * 1/count (C15_mse, C15_mse_ring), cross-entropy is -target*ln(output) * 1/leading dimension (C15_xent). Values of layer forwards, model forward and the loss are compared on every run with the specification formulas (specMatmul, specConv, specEwise, specSoftmax)." + TIE,
+        "note": COMMON_NOTE,
+        "technique": "Lean 4 unfolding theorems; differential check against reference formulas",
+    },
     "C16": {
-        "text": "Proved in Lean for all dimension lists and value lists (any rank, any size): the constructor accepts exactly well-formed (dims, values) and stores them unchanged; flat/zeros/nested constructors; nested element (i::idx) is element idx of part i; flatten_indices equals the row-major position for every in-range multi-index (the unit-dimension filter is harmless); rowMajor/unflatten are mutually inverse (row-major layout); flat indexing; equality iff dims and values equal. The model functions are the ones the driver executes; the construct family compares them with the real crate on every rank<=4 shape, every index, nesting, and a malformed stream.",
+        "text": "Proved in Lean for all dimension lists and value lists (any rank, any size): the constructor accepts exactly well-formed (dims, values) and stores them unchanged; flat/zeros/nested constructors; nested element (i::idx) is element idx of part i; flatten_indices equals the row-major position for every in-range multi-index; rowMajor/unflatten are mutually inverse (row-major layout); flat indexing; equality iff dims and values equal. The construct family compares the model with the real crate on every rank<=4 shape, every index, nesting, and a malformed stream." + TIE,
         "note": COMMON_NOTE + " Rank-0 arrays are outside the quantifier.",
+        "technique": "Lean 4 proofs (index algebra by induction, omega); exhaustive differential check over small shapes",
+    },
+    "C17": {
+        "text": "Proved: backward without a seed is the same computation as backward with a seed of ones of the handle's dimensions, which exists for every well-formed shape (C17_default, C17_ones_exists). PARTIAL: linearity in the seed is a corollary of C01's value half and is decided on every run on the implementation's own outputs: three fresh instances of random programs are run with s1, s2 and alpha*s1+beta*s2 and alpha*g1+beta*g2 = g3 is checked cell by cell (exact integers), plus omitted seed vs explicit ones." + TIE,
+        "note": COMMON_NOTE,
+        "technique": "Lean 4 proof of the default-seed identity; metamorphic linearity check",
+    },
+    "C18": {
+        "text": "Proved: who owns a buffer is determined by live names, layers, model outputs and recorded nodes only - a backward pass with its pending deltas and stored gradients, and gradient read/clear/set, change no owner count (C18_pass_holds_nothing, C18_grad_ops_hold_nothing); no roots means no owners (C18_no_roots_no_owners). On every run: random programs are built and differentiated, every derived result is dropped in random order, Rc owner counts (probe hook) are compared with the model after every drop, and Vec::from must succeed on every leaf, with and without stored gradients; in training runs the previous iteration's input is owned again after the next forward." + TIE,
+        "note": COMMON_NOTE + " Reachable references = Rc strong count (no cycles, no Weak) is assumed and compared numerically on every probe; gradient-cell aliasing is not modelled.",
+        "technique": "Lean 4 frame lemmas over a reachability-based ownership model + differential Rc-count / sole-owner checks",
+    },
+    "C19": {
+        "text": "Proved: acceptance and resulting dimensions of construction depend on the dimensions and the value count only, for any two scalar types (C19_mk_scalar_independent); broadcast shape and refusal are functions of the dimensions only (C19_ewise_dims). PARTIAL: 'agreement to within single-precision rounding' is validated by differential runs only: the C01-C07 families are re-run against a second harness built with --features f32, exactly on integers below 2^21 against the Rat model and under a 2e-4 tolerance against Lean Float32 on arbitrary data; shapes, flags and panics are compared exactly." + TIE,
+        "note": COMMON_NOTE + " Lean has no account of IEEE rounding here; the value half is differential only.",
+        "technique": "Lean 4 scalar-independence lemmas; differential re-run of the families against the f32 build",
     },
 }
 
